@@ -2,3 +2,564 @@
 From BVA Require Import Base.Prelude Base.Result Base.Words Base.Limbs.
 From BVA Require Import Model.Core Model.Ops Model.Arith Model.Conv Model.Auto Spec.Spec Proofs.Common.
 From Coq Require Import ZifyBool ZifyN ZifyNat.
+
+(* ------------------------------------------------------------------ capacity *)
+
+Lemma cfbl_d_eq len : cfbl_d len = cfbl_f 64 len.
+Proof.
+  unfold cfbl_d, cfbyl_d, cfbl_f.
+  pose proof (div_mod_eq (len + 7) 8). pose proof (mod_lt' (len + 7) 8 eq_refl).
+  pose proof (div_mod_eq ((len + 7) / 8 + 8 - 1) 8). pose proof (mod_lt' ((len + 7) / 8 + 8 - 1) 8 eq_refl).
+  pose proof (div_mod_eq (len + 64 - 1) 64). pose proof (mod_lt' (len + 64 - 1) 64 eq_refl).
+  lia.
+Qed.
+
+(* ------------------------------------------------------------------ is_zero *)
+
+Lemma forallb_zero_raw w d : forallb (fun x => x =? 0) d = (raw w d =? 0).
+Proof.
+  induction d as [|x r IH]; [reflexivity|].
+  cbn [forallb]. rewrite IH, raw_cons. pose proof (pow2_pos w).
+  destruct (N.eqb_spec x 0); destruct (N.eqb_spec (raw w r) 0); destruct (N.eqb_spec (x + 2 ^ w * raw w r) 0);
+    cbn; try reflexivity; nia.
+Qed.
+
+Lemma f_is_zero_spec w v : 0 < w -> canon_wv w v -> f_is_zero v = (raw w (wd v) =? 0).
+Proof. intros _ _. apply forallb_zero_raw. Qed.
+
+(* splitting the storage at word k *)
+Lemma lenw_firstn k d : k <= lenw d -> lenw (firstn (N.to_nat k) d) = k.
+Proof. intros H. unfold lenw in *. rewrite firstn_length. lia. Qed.
+
+Lemma words_ok_firstn w k d : words_ok w d -> words_ok w (firstn k d).
+Proof.
+  intros H. unfold words_ok in *. apply Forall_forall. intros x Hx.
+  rewrite Forall_forall in H. apply H. rewrite <- (firstn_skipn k d). apply in_or_app. left. assumption.
+Qed.
+
+Lemma words_ok_skipn w k d : words_ok w d -> words_ok w (skipn k d).
+Proof.
+  intros H. unfold words_ok in *. apply Forall_forall. intros x Hx.
+  rewrite Forall_forall in H. apply H. rewrite <- (firstn_skipn k d). apply in_or_app. right. assumption.
+Qed.
+
+Lemma raw_split w k d : 0 < w -> k <= lenw d ->
+  raw w d = raw w (firstn (N.to_nat k) d) + 2 ^ (w * k) * raw w (skipn (N.to_nat k) d).
+Proof.
+  intros Hw Hk. rewrite <- (firstn_skipn (N.to_nat k) d) at 1.
+  rewrite raw_app by assumption. rewrite lenw_firstn by assumption. reflexivity.
+Qed.
+
+(* the words at and above index k vanish when the value fits in w*k bits *)
+Lemma raw_firstn_small w k d : 0 < w -> k <= lenw d -> raw w d < 2 ^ (w * k) ->
+  raw w (firstn (N.to_nat k) d) = raw w d.
+Proof.
+  intros Hw Hk Hlt. rewrite (raw_split w k d Hw Hk) in Hlt |- *.
+  pose proof (pow2_pos (w * k)).
+  assert (raw w (skipn (N.to_nat k) d) = 0) as -> by nia. lia.
+Qed.
+
+Lemma cfbl_f_le w len n : 0 < w -> len <= w * n -> cfbl_f w len <= n.
+Proof. intros Hw H. unfold cfbl_f. apply ceil_div_spec; assumption. Qed.
+
+Lemma cfbl_f_ge w len : 0 < w -> len <= w * cfbl_f w len.
+Proof. intros Hw. unfold cfbl_f. apply ceil_div_spec; [assumption|lia]. Qed.
+
+Lemma d_is_zero_spec v : canon_wv 64 v -> d_is_zero v = Ok (raw 64 (wd v) =? 0).
+Proof.
+  intros (Hok & Hl & Hr). unfold d_is_zero. rewrite cfbl_d_eq.
+  assert (cfbl_f 64 (wl v) <= lenw (wd v)) as Hn by (apply cfbl_f_le; [reflexivity|assumption]).
+  destruct (N.ltb_spec (lenw (wd v)) (cfbl_f 64 (wl v))); [lia|].
+  rewrite (forallb_zero_raw 64). rewrite raw_firstn_small; [reflexivity|reflexivity|assumption|].
+  eapply N.lt_le_trans; [exact Hr|]. apply pow2_le. apply cfbl_f_ge. reflexivity.
+Qed.
+
+(* ------------------------------------------------------------------ N.size of a concatenation *)
+
+Lemma size_ge_of_le y m : 2 ^ m <= y -> m + 1 <= N.size y.
+Proof.
+  intros H. pose proof (size_lt_pow2 y) as Hs.
+  destruct (N.le_gt_cases (m + 1) (N.size y)) as [|Hlt]; [assumption|exfalso].
+  assert (2 ^ N.size y <= 2 ^ m) by (apply pow2_le; lia). lia.
+Qed.
+
+Lemma size_concat a x n : a < 2 ^ n -> x <> 0 -> N.size (a + 2 ^ n * x) = n + N.size x.
+Proof.
+  intros Ha Hx. apply N.le_antisymm.
+  - apply size_le_of_lt. apply concat_lt; [assumption|apply size_lt_pow2].
+  - rewrite (N.size_log2 x) by assumption.
+    replace (n + N.succ (N.log2 x)) with (n + N.log2 x + 1) by lia.
+    apply size_ge_of_le. rewrite pow2_add.
+    assert (2 ^ N.log2 x <= x) by (apply N.log2_spec; lia).
+    pose proof (pow2_pos n). nia.
+Qed.
+
+Lemma size_0 : N.size 0 = 0.
+Proof. reflexivity. Qed.
+
+(* ------------------------------------------------------------------ top word of a canonical vector *)
+
+Lemma cfbl_f_0 w : 0 < w -> cfbl_f w 0 = 0.
+Proof. intros Hw. unfold cfbl_f. apply N.div_small. lia. Qed.
+
+Lemma cfbl_f_pos w len : 0 < w -> 0 < len ->
+  cfbl_f w len = (len - 1) / w + 1 /\ len = w * ((len - 1) / w) + ((len - 1) mod w + 1) /\
+  (len - 1) mod w + 1 <= w.
+Proof.
+  intros Hw Hl. pose proof (div_mod_eq (len - 1) w) as E. pose proof (mod_lt' (len - 1) w Hw) as Hm.
+  split; [|split; lia].
+  unfold cfbl_f.
+  destruct (divmod_unique (len + w - 1) w ((len - 1) / w + 1) ((len - 1) mod w) Hw) as [-> _];
+    [rewrite N.mul_add_distr_l; lia|assumption|reflexivity].
+Qed.
+
+Lemma skipn_getw d k : k < lenw d ->
+  skipn (N.to_nat k) d = getw d k :: skipn (S (N.to_nat k)) d.
+Proof.
+  unfold lenw, getw. intros Hn. assert (N.to_nat k < length d)%nat as H by lia. clear Hn.
+  revert H. generalize (N.to_nat k) as n. intros n. revert d. induction n as [|n IH]; intros [|x r] H; cbn [length] in H; try lia.
+  - reflexivity.
+  - cbn [skipn nth]. rewrite IH by lia. reflexivity.
+Qed.
+
+Lemma canon_top w v : 0 < w -> canon_wv w v -> 0 < wl v ->
+  let k := cfbl_f w (wl v) - 1 in
+  let lb := (wl v - 1) mod w + 1 in
+  let lo := firstn (N.to_nat k) (wd v) in
+  cfbl_f w (wl v) = k + 1 /\ wl v = w * k + lb /\ 1 <= lb /\ lb <= w /\
+  lenw lo = k /\ words_ok w lo /\ getw (wd v) k < 2 ^ lb /\
+  raw w (wd v) = raw w lo + 2 ^ (w * k) * getw (wd v) k.
+Proof.
+  intros Hw (Hok & Hl & Hr) Hpos k lb lo.
+  destruct (cfbl_f_pos w (wl v) Hw Hpos) as (E1 & E2 & E3).
+  assert (k = (wl v - 1) / w) as Hk by (unfold k; lia).
+  fold lb in E2, E3. rewrite <- Hk in E2.
+  assert (k < lenw (wd v)) as Hklt by nia.
+  split; [lia|]. split; [assumption|]. split; [lia|]. split; [assumption|].
+  split; [apply lenw_firstn; lia|]. split; [apply words_ok_firstn; assumption|].
+  pose proof (raw_split w k (wd v) Hw (N.lt_le_incl _ _ Hklt)) as Es. fold lo in Es.
+  rewrite skipn_getw in Es by assumption. rewrite raw_cons in Es.
+  set (y := getw (wd v) k) in *. set (R := raw w (skipn (S (N.to_nat k)) (wd v))) in *.
+  rewrite E2 in Hr. rewrite pow2_add in Hr. rewrite Es in Hr.
+  pose proof (pow2_pos (w * k)). pose proof (pow2_pos w).
+  assert (2 ^ lb <= 2 ^ w) by (apply pow2_le; assumption).
+  assert (y + 2 ^ w * R < 2 ^ lb) as Hy by nia.
+  assert (R = 0) as HR by nia.
+  rewrite HR in *. split; [lia|]. rewrite Es. f_equal. f_equal. lia.
+Qed.
+
+(* ------------------------------------------------------------------ leading zeros *)
+
+Lemma raw_snoc w lo x : 0 < w -> raw w (lo ++ [x]) = raw w lo + 2 ^ (w * lenw lo) * x.
+Proof. intros Hw. rewrite raw_app by assumption. rewrite raw_cons, raw_nil. f_equal. f_equal. lia. Qed.
+
+Lemma size_raw_le w lo : words_ok w lo -> N.size (raw w lo) <= w * lenw lo.
+Proof. intros H. apply size_le_of_lt, raw_lt. assumption. Qed.
+
+Lemma scan_lz w lo : 0 < w -> words_ok w lo -> forall v count,
+  scan_words (clz w) 0 (rev lo) v count =
+  count + (if v =? 0 then w * lenw lo - N.size (raw w lo) else 0).
+Proof.
+  intros Hw. induction lo as [|x lo IH] using rev_ind; intros Hok v count.
+  - cbn [rev scan_words]. rewrite lenw_nil, N.mul_0_r. destruct (v =? 0); lia.
+  - apply Forall_app in Hok. destruct Hok as [Hlo Hx]. inversion Hx as [|? ? Hx' _]; subst.
+    rewrite rev_unit. cbn [scan_words].
+    destruct (N.eqb_spec v 0) as [Hv|Hv]; [|lia].
+    rewrite IH by assumption. rewrite raw_snoc by assumption.
+    rewrite (lenw_app w Hw), lenw_cons, lenw_nil.
+    pose proof (size_raw_le w lo Hlo) as Hs. unfold clz.
+    destruct (N.eqb_spec x 0) as [->|Hx0].
+    + rewrite size_0, N.mul_0_r, N.add_0_r. lia.
+    + rewrite size_concat by (try apply raw_lt; assumption).
+      pose proof (size_le_of_lt x w Hx'). lia.
+Qed.
+
+Lemma lz_final w lo t lb : words_ok w lo -> t < 2 ^ lb -> lb <= w ->
+  (w - N.size t) - (w - lb) + (if t =? 0 then w * lenw lo - N.size (raw w lo) else 0)
+  = w * lenw lo + lb - N.size (raw w lo + 2 ^ (w * lenw lo) * t).
+Proof.
+  intros Hlo Ht Hlb. pose proof (size_raw_le w lo Hlo) as Hs. pose proof (size_le_of_lt t lb Ht) as Hst.
+  destruct (N.eqb_spec t 0) as [->|Ht0].
+  - rewrite size_0, N.mul_0_r, N.add_0_r. lia.
+  - rewrite size_concat by (try apply raw_lt; assumption). lia.
+Qed.
+
+Lemma land_maskw_small w t lb : t < 2 ^ lb -> lb <= w -> N.land t (maskw w lb) = t.
+Proof.
+  intros Ht Hlb. rewrite maskw_eq, N.min_l by assumption. rewrite land_ones_mod. apply N.mod_small. assumption.
+Qed.
+
+Lemma leading_zeros_spec w v :
+  0 < w -> canon_wv w v ->
+  v_leading false (cfbl_f w) w v = s_leading_zeros (mkbv (wl v) (raw w (wd v))).
+Proof.
+  intros Hw Hc. unfold v_leading, s_leading_zeros. cbn [blen bval].
+  destruct (N.eq_dec (wl v) 0) as [Hz|Hnz].
+  - rewrite Hz, cfbl_f_0 by assumption. reflexivity.
+  - cbv zeta.
+    destruct (canon_top w v Hw Hc) as (E1 & E2 & Hlb1 & Hlb & Hlen & Hlo & Htop & Hraw); [lia|].
+    set (k := cfbl_f w (wl v) - 1) in *. set (lb := (wl v - 1) mod w + 1) in *.
+    set (lo := firstn (N.to_nat k) (wd v)) in *. set (top := getw (wd v) k) in *.
+    destruct (N.ltb_spec 0 (cfbl_f w (wl v))); [|lia].
+    rewrite land_maskw_small by assumption.
+    rewrite scan_lz by assumption. unfold clz.
+    rewrite Hraw, E2, Hlen.
+    pose proof (lz_final w lo top lb Hlo Htop Hlb) as HF. rewrite Hlen in HF. exact HF.
+Qed.
+
+Lemma leading_zeros_le w v : 0 < w -> canon_wv w v -> v_leading false (cfbl_f w) w v <= wl v.
+Proof.
+  intros Hw Hc. rewrite leading_zeros_spec by assumption. unfold s_leading_zeros. cbn [blen bval]. lia.
+Qed.
+
+Lemma lz_plus_sigbits w v :
+  0 < w -> canon_wv w v -> v_leading false (cfbl_f w) w v + N.size (raw w (wd v)) = wl v.
+Proof.
+  intros Hw Hc. rewrite leading_zeros_spec by assumption. unfold s_leading_zeros. cbn [blen bval].
+  destruct Hc as (_ & _ & Hr). pose proof (size_le_of_lt _ _ Hr). lia.
+Qed.
+
+(* ------------------------------------------------------------------ complements *)
+
+Lemma eqb_wmax_notw w x : x < 2 ^ w -> (x =? wmax w) = (notw w x =? 0).
+Proof.
+  intros Hx. rewrite notw_eq by assumption. unfold wmax. rewrite ones_eq.
+  destruct (N.eqb_spec x (2 ^ w - 1)); destruct (N.eqb_spec (2 ^ w - 1 - x) 0); try reflexivity; lia.
+Qed.
+
+Lemma words_ok_map_notw w lo : words_ok w lo -> words_ok w (map (notw w) lo).
+Proof.
+  intros H. unfold words_ok in *. induction H as [|x r Hx Hr IH]; cbn [map]; constructor.
+  - apply notw_lt. assumption.
+  - assumption.
+Qed.
+
+Lemma lenw_map f lo : lenw (map f lo) = lenw lo.
+Proof. unfold lenw. rewrite map_length. reflexivity. Qed.
+
+(* arithmetic form of the complement of a concatenation *)
+Lemma notw_concat n m a b : a < 2 ^ n -> b < 2 ^ m ->
+  notw (n + m) (a + 2 ^ n * b) = notw n a + 2 ^ n * notw m b.
+Proof.
+  intros Ha Hb. rewrite !notw_eq by (try apply concat_lt; assumption).
+  rewrite pow2_add. pose proof (pow2_pos n). pose proof (pow2_pos m).
+  assert (2 ^ n * (2 ^ m - 1 - b) + 2 ^ n * (b + 1) = 2 ^ n * 2 ^ m) as E.
+  { rewrite <- N.mul_add_distr_l. f_equal. lia. }
+  rewrite N.mul_add_distr_l, N.mul_1_r in E.
+  set (P := 2 ^ n) in *. set (X := P * (2 ^ m - 1 - b)) in *. set (Y := P * b) in *. set (Z := P * 2 ^ m) in *.
+  clearbody X Y Z P. lia.
+Qed.
+
+Lemma raw_map_notw w lo : words_ok w lo -> raw w (map (notw w) lo) = notw (w * lenw lo) (raw w lo).
+Proof.
+  intros H. induction H as [|x r Hx Hr IH].
+  - cbn [map]. rewrite raw_nil, lenw_nil, N.mul_0_r. reflexivity.
+  - cbn [map]. rewrite !raw_cons, lenw_cons, IH.
+    replace (w * (lenw r + 1)) with (w + w * lenw r) by lia.
+    symmetry. apply notw_concat; [assumption|apply raw_lt; assumption].
+Qed.
+
+Lemma notw_split w lo top lb : words_ok w lo -> top < 2 ^ lb ->
+  notw (w * lenw lo + lb) (raw w lo + 2 ^ (w * lenw lo) * top)
+  = raw w (map (notw w) lo) + 2 ^ (w * lenw lo) * notw lb top.
+Proof.
+  intros Hlo Ht. rewrite raw_map_notw by assumption. apply notw_concat; [apply raw_lt|]; assumption.
+Qed.
+
+(* the top word of the `ones` scans: spare bits are filled with ones, complementing gives the
+   complement of the significant part *)
+Lemma top_fill_lt w top lb : top < 2 ^ lb -> lb <= w -> N.lor top (notw w (maskw w lb)) < 2 ^ w.
+Proof.
+  intros Ht Hlb. apply lt_pow2_of_bits. intros i Hi.
+  rewrite N.lor_spec, notw_testbit, maskw_testbit.
+  rewrite (testbit_high top lb i) by (assumption || lia).
+  assert (i <? w = false) as -> by (apply N.ltb_ge; assumption).
+  rewrite andb_false_r. reflexivity.
+Qed.
+
+Lemma notw_top_fill w top lb : top < 2 ^ lb -> lb <= w ->
+  notw w (N.lor top (notw w (maskw w lb))) = notw lb top.
+Proof.
+  intros Ht Hlb. apply N.bits_inj. intro i.
+  rewrite !notw_testbit, N.lor_spec, notw_testbit, maskw_testbit.
+  destruct (N.ltb_spec i lb) as [Hi|Hi].
+  - assert (i <? w = true) as -> by (apply N.ltb_lt; lia). cbn. rewrite orb_false_r. reflexivity.
+  - rewrite (testbit_high top lb i) by assumption. cbn. destruct (i <? w); reflexivity.
+Qed.
+
+(* ------------------------------------------------------------------ count_run over bit lists *)
+
+Lemma count_run_negb (f : N -> bool) l :
+  count_run true (map f l) = count_run false (map (fun i => negb (f i)) l).
+Proof.
+  induction l as [|x r IH]; [reflexivity|]. cbn [map count_run]. rewrite IH.
+  destruct (f x); reflexivity.
+Qed.
+
+Lemma bools_notw len x :
+  map (N.testbit (notw len x)) (nrange len) = map (fun i => negb (N.testbit x i)) (nrange len).
+Proof.
+  apply map_ext_in. intros i Hi. apply In_nrange in Hi. rewrite notw_testbit.
+  apply N.ltb_lt in Hi. rewrite Hi. apply xorb_true_r.
+Qed.
+
+Lemma count_run_ones_notw len x :
+  count_run true (map (N.testbit x) (nrange len)) = count_run false (map (N.testbit (notw len x)) (nrange len)).
+Proof. rewrite bools_notw. apply count_run_negb. Qed.
+
+Lemma count_run_ones_notw_rev len x :
+  count_run true (rev (map (N.testbit x) (nrange len)))
+  = count_run false (rev (map (N.testbit (notw len x)) (nrange len))).
+Proof. rewrite bools_notw, <- !map_rev. apply count_run_negb. Qed.
+
+Lemma lead_zeros_list len : forall y, y < 2 ^ len ->
+  count_run false (rev (map (N.testbit y) (nrange len))) = len - N.size y.
+Proof.
+  induction len as [|len IH] using N.peano_ind; intros y Hy.
+  - rewrite nrange_0. cbn [map rev count_run]. lia.
+  - rewrite <- N.add_1_r in *. rewrite nrange_succ, map_app, rev_app_distr. cbn [map rev app count_run].
+    destruct (N.testbit y len) eqn:Hb; cbn [Bool.eqb].
+    + assert (2 ^ len <= y) as Hge.
+      { destruct (N.le_gt_cases (2 ^ len) y) as [|Hlt]; [assumption|].
+        rewrite (testbit_high y len len) in Hb by (assumption || lia). discriminate. }
+      pose proof (size_ge_of_le y len Hge). lia.
+    + assert (y < 2 ^ len) as Hlt.
+      { apply lt_pow2_of_bits. intros i Hi. destruct (N.eq_dec i len) as [->|Hne]; [assumption|].
+        apply (testbit_high y (len + 1)); [assumption|lia]. }
+      rewrite IH by assumption. pose proof (size_le_of_lt y len Hlt). lia.
+Qed.
+
+Lemma s_leading_ones_eq len x : x < 2 ^ len ->
+  s_leading_ones (mkbv len x) = len - N.size (notw len x).
+Proof.
+  intros Hx. unfold s_leading_ones, bools_of. cbn [blen bval].
+  rewrite count_run_ones_notw_rev. apply lead_zeros_list. apply notw_lt. assumption.
+Qed.
+
+(* ------------------------------------------------------------------ leading ones *)
+
+Lemma scan_words_ones w ws : words_ok w ws -> forall v count, v < 2 ^ w ->
+  scan_words (clo w) (wmax w) ws v count = scan_words (clz w) 0 (map (notw w) ws) (notw w v) count.
+Proof.
+  intros H. induction H as [|x r Hx Hr IH]; intros v count Hv; [reflexivity|].
+  cbn [map scan_words]. rewrite eqb_wmax_notw by assumption.
+  destruct (notw w v =? 0); [|reflexivity]. rewrite IH by assumption. reflexivity.
+Qed.
+
+Lemma words_ok_rev w lo : words_ok w lo -> words_ok w (rev lo).
+Proof. intros H. unfold words_ok in *. apply Forall_rev. assumption. Qed.
+
+Lemma leading_ones_spec w v :
+  0 < w -> canon_wv w v ->
+  v_leading true (cfbl_f w) w v = s_leading_ones (mkbv (wl v) (raw w (wd v))).
+Proof.
+  intros Hw Hc. rewrite s_leading_ones_eq by apply Hc. unfold v_leading.
+  destruct (N.eq_dec (wl v) 0) as [Hz|Hnz].
+  - rewrite Hz, cfbl_f_0 by assumption. reflexivity.
+  - cbv zeta.
+    destruct (canon_top w v Hw Hc) as (E1 & E2 & Hlb1 & Hlb & Hlen & Hlo & Htop & Hraw); [lia|].
+    set (k := cfbl_f w (wl v) - 1) in *. set (lb := (wl v - 1) mod w + 1) in *.
+    set (lo := firstn (N.to_nat k) (wd v)) in *. set (top := getw (wd v) k) in *.
+    destruct (N.ltb_spec 0 (cfbl_f w (wl v))); [|lia].
+    rewrite scan_words_ones by (try apply words_ok_rev; try apply top_fill_lt; assumption).
+    unfold clo. rewrite notw_top_fill by assumption. rewrite map_rev.
+    pose proof (words_ok_map_notw w lo Hlo) as Hlo'.
+    rewrite scan_lz by assumption. unfold clz. rewrite lenw_map.
+    rewrite Hraw, E2, Hlen.
+    pose proof (notw_split w lo top lb Hlo Htop) as HS. rewrite Hlen in HS. rewrite HS.
+    pose proof (lz_final w (map (notw w) lo) (notw lb top) lb Hlo' (notw_lt _ _ Htop) Hlb) as HF.
+    rewrite lenw_map, Hlen in HF. exact HF.
+Qed.
+
+(* ------------------------------------------------------------------ trailing zeros of a number *)
+
+Lemma ctz_pos_spec p :
+  N.testbit (N.pos p) (ctz_pos p) = true /\ forall j, j < ctz_pos p -> N.testbit (N.pos p) j = false.
+Proof.
+  induction p as [p IH|p IH|]; cbn [ctz_pos].
+  - split; [reflexivity|]. intros j Hj. lia.
+  - destruct IH as [H1 H2]. change (N.pos p~0) with (2 * N.pos p). split.
+    + rewrite N.testbit_even_succ by lia. assumption.
+    + intros j Hj. destruct (N.eq_dec j 0) as [->|Hj0]; [apply N.testbit_even_0|].
+      replace j with (N.succ (j - 1)) by lia. rewrite N.testbit_even_succ by lia. apply H2. lia.
+  - split; [reflexivity|]. intros j Hj. lia.
+Qed.
+
+Lemma ctz_spec w x : x <> 0 ->
+  N.testbit x (ctz w x) = true /\ forall j, j < ctz w x -> N.testbit x j = false.
+Proof. destruct x as [|p]; [congruence|]. intros _. apply ctz_pos_spec. Qed.
+
+Lemma ctz_unique w x k : x <> 0 -> N.testbit x k = true -> (forall j, j < k -> N.testbit x j = false) ->
+  ctz w x = k.
+Proof.
+  intros Hx Hk Hlow. destruct (ctz_spec w x Hx) as [H1 H2].
+  destruct (N.lt_trichotomy (ctz w x) k) as [Hlt|[Heq|Hgt]]; [|assumption|].
+  - rewrite (Hlow _ Hlt) in H1. discriminate.
+  - rewrite (H2 _ Hgt) in Hk. discriminate.
+Qed.
+
+Lemma ctz_lt w x n : x <> 0 -> x < 2 ^ n -> ctz w x < n.
+Proof.
+  intros Hx Hlt. destruct (ctz_spec w x Hx) as [H1 _].
+  destruct (N.lt_ge_cases (ctz w x) n) as [|Hge]; [assumption|].
+  rewrite (testbit_high x n _ Hlt Hge) in H1. discriminate.
+Qed.
+
+Lemma ctz_0 w : ctz w 0 = w.
+Proof. reflexivity. Qed.
+
+(* T len x = number of trailing zero bits of x, seen as a len-bit number *)
+Definition tzn (len x : N) : N := N.min len (ctz len x).
+
+Lemma tzn_concat n m x y : x < 2 ^ n ->
+  tzn (n + m) (x + 2 ^ n * y) = if x =? 0 then n + tzn m y else ctz n x.
+Proof.
+  intros Hx. unfold tzn. destruct (N.eqb_spec x 0) as [->|Hx0].
+  - rewrite N.add_0_l. destruct (N.eq_dec y 0) as [->|Hy0].
+    + rewrite N.mul_0_r, !ctz_0. lia.
+    + destruct (ctz_spec m y Hy0) as [H1 H2].
+      rewrite (ctz_unique (n + m) (2 ^ n * y) (n + ctz m y)).
+      * lia.
+      * pose proof (pow2_pos n). nia.
+      * rewrite N.mul_comm, mul_pow2_testbit.
+        assert (n <=? n + ctz m y = true) as -> by (apply N.leb_le; lia).
+        replace (n + ctz m y - n) with (ctz m y) by lia. assumption.
+      * intros j Hj. rewrite N.mul_comm, mul_pow2_testbit.
+        destruct (N.leb_spec n j); [|reflexivity]. apply H2. lia.
+  - destruct (ctz_spec n x Hx0) as [H1 H2]. pose proof (ctz_lt n x n Hx0 Hx) as Hc.
+    rewrite (ctz_unique (n + m) (x + 2 ^ n * y) (ctz n x)).
+    + lia.
+    + lia.
+    + rewrite concat_testbit by assumption.
+      assert (ctz n x <? n = true) as -> by (apply N.ltb_lt; assumption). assumption.
+    + intros j Hj. rewrite concat_testbit by assumption.
+      assert (j <? n = true) as -> by (apply N.ltb_lt; lia). apply H2. assumption.
+Qed.
+
+Lemma nrange_shift n : nrange (n + 1) = 0 :: map N.succ (nrange n).
+Proof.
+  unfold nrange. replace (N.to_nat (n + 1)) with (S (N.to_nat n)) by lia.
+  cbn [seq map]. f_equal. rewrite <- seq_shift, !map_map. apply map_ext. intros a. lia.
+Qed.
+
+Lemma tzn_spec len : forall x, count_run false (map (N.testbit x) (nrange len)) = tzn len x.
+Proof.
+  unfold tzn. induction len as [|len IH] using N.peano_ind; intros x.
+  - rewrite nrange_0. cbn [map count_run]. lia.
+  - rewrite <- N.add_1_r. rewrite nrange_shift. cbn [map count_run]. rewrite map_map.
+    rewrite (map_ext (fun i => N.testbit x (N.succ i)) (N.testbit (N.div2 x)))
+      by (intros i; apply N.testbit_succ_r_div2; lia).
+    rewrite IH.
+    destruct x as [|[p|p|]].
+    + change (N.testbit 0 0) with false. change (N.div2 0) with 0. cbn [Bool.eqb]. rewrite !ctz_0. lia.
+    + change (N.testbit (N.pos p~1) 0) with true. cbn [Bool.eqb ctz ctz_pos]. lia.
+    + change (N.testbit (N.pos p~0) 0) with false. change (N.div2 (N.pos p~0)) with (N.pos p).
+      cbn [Bool.eqb ctz ctz_pos]. lia.
+    + change (N.testbit 1 0) with true. cbn [Bool.eqb ctz ctz_pos]. lia.
+Qed.
+
+Lemma tzn_ext len a b : (forall i, i < len -> N.testbit a i = N.testbit b i) -> tzn len a = tzn len b.
+Proof.
+  intros H. rewrite <- !tzn_spec. f_equal. apply map_ext_in. intros i Hi. apply H. apply In_nrange. assumption.
+Qed.
+
+Lemma tzn_width w lb a : lb <= w -> N.min (ctz w a) lb = tzn lb a.
+Proof. intros H. unfold tzn. destruct a as [|p]; cbn [ctz]; lia. Qed.
+
+Lemma s_trailing_zeros_eq len x : s_trailing_zeros (mkbv len x) = tzn len x.
+Proof. unfold s_trailing_zeros, bools_of. cbn [blen bval]. apply tzn_spec. Qed.
+
+Lemma s_trailing_ones_eq len x : s_trailing_ones (mkbv len x) = tzn len (notw len x).
+Proof.
+  unfold s_trailing_ones, bools_of. cbn [blen bval]. rewrite count_run_ones_notw. apply tzn_spec.
+Qed.
+
+(* ------------------------------------------------------------------ the upward scan *)
+
+Fixpoint trail (cnt : N -> N) (stop top : N) (ws : list N) : N :=
+  match ws with
+  | [] => top
+  | x :: r => if x =? stop then cnt x + trail cnt stop top r else cnt x
+  end.
+
+Lemma scan_up_nostop cnt stop ws v c i : v <> stop -> scan_up cnt stop ws v c i = (v, c, i).
+Proof.
+  intros H. destruct ws as [|x r]; [reflexivity|]. cbn [scan_up].
+  destruct (N.eqb_spec v stop); [contradiction|reflexivity].
+Qed.
+
+Lemma scan_up_res cnt stop (g : N -> N) ws : forall count i,
+  (let '(v1, c, i1) := scan_up cnt stop ws stop count i in if v1 =? stop then c + g i1 else c)
+  = count + trail cnt stop (g (i + lenw ws)) ws.
+Proof.
+  induction ws as [|x r IH]; intros count i.
+  - cbn [scan_up trail]. rewrite N.eqb_refl, lenw_nil, N.add_0_r. reflexivity.
+  - cbn [scan_up trail]. rewrite N.eqb_refl. rewrite lenw_cons.
+    destruct (N.eqb_spec x stop) as [->|Hx].
+    + rewrite IH. replace (i + 1 + lenw r) with (i + (lenw r + 1)) by lia. lia.
+    + rewrite scan_up_nostop by assumption.
+      destruct (N.eqb_spec x stop); [contradiction|reflexivity].
+Qed.
+
+Lemma trail_tz w lo t lb topc : words_ok w lo -> t < 2 ^ lb -> topc = tzn lb t ->
+  trail (ctz w) 0 topc lo = tzn (w * lenw lo + lb) (raw w lo + 2 ^ (w * lenw lo) * t).
+Proof.
+  intros Hlo Ht ->. induction Hlo as [|x r Hx Hr IH].
+  - cbn [trail]. rewrite raw_nil, lenw_nil, N.mul_0_r, N.pow_0_r, N.mul_1_l, !N.add_0_l. reflexivity.
+  - cbn [trail]. rewrite raw_cons, lenw_cons, IH.
+    replace (w * (lenw r + 1) + lb) with (w + (w * lenw r + lb)) by lia.
+    replace (x + 2 ^ w * raw w r + 2 ^ (w * (lenw r + 1)) * t)
+      with (x + 2 ^ w * (raw w r + 2 ^ (w * lenw r) * t)).
+    + rewrite (tzn_concat w _ x) by assumption. destruct (N.eqb_spec x 0) as [->|]; [rewrite ctz_0|]; reflexivity.
+    + replace (w * (lenw r + 1)) with (w + w * lenw r) by lia. rewrite pow2_add.
+      rewrite N.mul_add_distr_l, N.mul_assoc, N.add_assoc. reflexivity.
+Qed.
+
+Lemma trail_ones w lo topc : words_ok w lo ->
+  trail (cto w) (wmax w) topc lo = trail (ctz w) 0 topc (map (notw w) lo).
+Proof.
+  intros H. induction H as [|x r Hx Hr IH]; [reflexivity|].
+  cbn [map trail]. rewrite eqb_wmax_notw by assumption. rewrite IH. reflexivity.
+Qed.
+
+Lemma trailing_zeros_spec w v :
+  0 < w -> canon_wv w v ->
+  v_trailing false (cfbl_f w) w v = s_trailing_zeros (mkbv (wl v) (raw w (wd v))).
+Proof.
+  intros Hw Hc. rewrite s_trailing_zeros_eq. unfold v_trailing.
+  destruct (N.eq_dec (wl v) 0) as [Hz|Hnz].
+  - rewrite Hz, cfbl_f_0 by assumption. unfold tzn. cbn [N.ltb]. rewrite N.min_0_l. reflexivity.
+  - cbv zeta.
+    destruct (canon_top w v Hw Hc) as (E1 & E2 & Hlb1 & Hlb & Hlen & Hlo & Htop & Hraw); [lia|].
+    set (k := cfbl_f w (wl v) - 1) in *. set (lb := (wl v - 1) mod w + 1) in *.
+    set (lo := firstn (N.to_nat k) (wd v)) in *.
+    destruct (N.ltb_spec 0 (cfbl_f w (wl v))); [|lia].
+    rewrite (scan_up_res (ctz w) 0 (fun i => N.min (ctz w (getw (wd v) i)) lb) lo 0 0).
+    rewrite !N.add_0_l, Hlen. set (top := getw (wd v) k) in *.
+    rewrite (trail_tz w lo top lb) by (try assumption; apply tzn_width; assumption).
+    rewrite Hlen, Hraw, <- E2. reflexivity.
+Qed.
+
+Lemma trailing_ones_spec w v :
+  0 < w -> canon_wv w v ->
+  v_trailing true (cfbl_f w) w v = s_trailing_ones (mkbv (wl v) (raw w (wd v))).
+Proof.
+  intros Hw Hc. rewrite s_trailing_ones_eq. unfold v_trailing.
+  destruct (N.eq_dec (wl v) 0) as [Hz|Hnz].
+  - rewrite Hz, cfbl_f_0 by assumption. unfold tzn. cbn [N.ltb]. rewrite N.min_0_l. reflexivity.
+  - cbv zeta.
+    destruct (canon_top w v Hw Hc) as (E1 & E2 & Hlb1 & Hlb & Hlen & Hlo & Htop & Hraw); [lia|].
+    set (k := cfbl_f w (wl v) - 1) in *. set (lb := (wl v - 1) mod w + 1) in *.
+    set (lo := firstn (N.to_nat k) (wd v)) in *.
+    destruct (N.ltb_spec 0 (cfbl_f w (wl v))); [|lia].
+    rewrite (scan_up_res (cto w) (wmax w) (fun i => N.min (cto w (getw (wd v) i)) lb) lo 0 0).
+    rewrite !N.add_0_l, Hlen. set (top := getw (wd v) k) in *.
+    rewrite trail_ones by assumption.
+    pose proof (words_ok_map_notw w lo Hlo) as Hlo'.
+    assert (N.min (cto w top) lb = tzn lb (notw lb top)) as Hg.
+    { unfold cto. rewrite tzn_width by assumption. apply tzn_ext. intros i Hi. rewrite !notw_testbit.
+      f_equal. destruct (N.ltb_spec i lb); destruct (N.ltb_spec i w); try reflexivity; lia. }
+    rewrite (trail_tz w (map (notw w) lo) (notw lb top) lb _ Hlo' (notw_lt _ _ Htop) Hg).
+    rewrite lenw_map, Hlen, Hraw, E2.
+    pose proof (notw_split w lo top lb Hlo Htop) as HS. rewrite Hlen in HS. rewrite HS. reflexivity.
+Qed.
